@@ -14,17 +14,21 @@
 (*                own URI (after the base class)                           *)
 (*   "undefsub"   a subclass of a defined class that is NOT defined: the   *)
 (*                registration of a class does not extend to subclasses    *)
+(*   "appsub"     a subclass of ApplicationError that IS defined on the    *)
+(*                session but raised with another, more specific URI: an   *)
+(*                application error always travels with the URI it carries *)
+(*   "appsubundef" the same subclass, not defined                          *)
 (* Caller side registry for the URI: "same" (the class is defined there    *)
 (* too and accepts the arguments), "badctor" (a class is defined whose     *)
 (* constructor rejects the arguments / raises), "none".                    *)
 (***************************************************************************)
 EXTENDS Naturals, TLC
 
-Kinds == {"app", "decorated", "defined", "undefined", "definedsub", "undefsub"}
+Kinds == {"app", "decorated", "defined", "undefined", "definedsub", "undefsub", "appsub", "appsubundef"}
 Registry == {"same", "badctor", "none"}
 
 \* which URI the ERROR carries: "carried" (the application error's own), "registered", "runtime" (wamp.error.runtime_error)
-WireUri(kind) == CASE kind = "app" -> "carried" [] kind \in {"decorated", "defined", "definedsub"} -> "registered" [] OTHER -> "runtime"
+WireUri(kind) == CASE kind \in {"app", "appsub", "appsubundef"} -> "carried" [] kind \in {"decorated", "defined", "definedsub"} -> "registered" [] OTHER -> "runtime"
 
 \* what the caller's call fails with: the registered class if there is one that can be constructed, else the generic error
 CallerClass(reg) == IF reg = "same" THEN "registered" ELSE "generic"
